@@ -2,6 +2,7 @@ package gosym
 
 import (
 	"fmt"
+	"os"
 	"go/constant"
 	"go/token"
 	"go/types"
@@ -51,6 +52,7 @@ type Interp struct {
 	allowPanic bool
 	pathNotes []string
 	observed  []obsTerm
+	choices   map[string]string
 	initStored map[*ssa.Global]bool
 	initTouched map[*Cell]bool
 	mapOrder  bool
@@ -327,6 +329,12 @@ func (it *Interp) ensureInit(pkg *ssa.Package) {
 			if r := recover(); r != nil {
 				switch r.(type) {
 				case *Unsupported, *GoPanic, *pathEnd:
+					if os.Getenv("VERIF_DEBUG") != "" {
+						fmt.Fprintf(os.Stderr, "init of %s aborted: %v\n", pkg.Pkg.Path(), r)
+						if u, ok := r.(*Unsupported); ok {
+							fmt.Fprintf(os.Stderr, "   %s\n", strings.Join(u.Stack, "\n   "))
+						}
+					}
 					// abort: poison globals of this package that init had not reached
 					for _, m := range pkg.Members {
 						if g, ok := m.(*ssa.Global); ok && !stored[g] && !strings.HasPrefix(g.Name(), "init$") {
@@ -346,10 +354,14 @@ func (it *Interp) ensureInit(pkg *ssa.Package) {
 		saveStored := it.initStored
 		it.initStored = stored
 		defer func() { it.initStored = saveStored }()
+		it.cur = nil
 		it.callFunction(initFn, nil, nil, nil)
 	}()
 	it.cur = saveCur
 	it.initDepth--
+	if os.Getenv("VERIF_DEBUG") != "" {
+		fmt.Fprintf(os.Stderr, "init %s done, steps now %d\n", pkg.Pkg.Path(), it.steps)
+	}
 }
 
 
@@ -784,14 +796,6 @@ func (it *Interp) normInt(v Value, t types.Type) Value {
 		return wrapBig(c, bits, signed)
 	}
 	s := v.(*Sym)
-	if signed {
-		if s.Bits > 0 && s.Bits <= bits-1 {
-			return s
-		}
-	} else if s.NonNeg && s.Bits > 0 && s.Bits <= bits {
-		return s
-	}
-	// ask the solver whether the value can leave the range
 	var lo, hi *big.Int
 	if signed {
 		lo = new(big.Int).Neg(pow2(bits - 1))
@@ -800,20 +804,20 @@ func (it *Interp) normInt(v Value, t types.Type) Value {
 		lo = big.NewInt(0)
 		hi = new(big.Int).Sub(pow2(bits), big.NewInt(1))
 	}
+	if within(s, lo, hi) {
+		return s
+	}
+	// ask the solver whether the value can leave the range
 	named := it.nameTerm(s)
 	out := mkOr(mkCmp("<", named, lo), mkCmp(">", named, hi))
 	if !it.feasible(out) {
-		nb := bits
-		if signed {
-			nb = bits - 1
-		}
-		return &Sym{S: SInt, T: named.T, Bits: nb, NonNeg: !signed || s.NonNeg}
+		return withRange(named, lo, hi)
 	}
 	it.R.note("wrap-around reachable at " + it.where())
 	if signed {
-		return &Sym{S: SInt, T: "(wrapS " + named.T + " " + pow2(bits).String() + ")", Bits: bits - 1}
+		return &Sym{S: SInt, T: "(wrapS " + named.T + " " + pow2(bits).String() + ")", Lo: lo, Hi: hi}
 	}
-	return &Sym{S: SInt, T: "(wrapU " + named.T + " " + pow2(bits).String() + ")", Bits: bits, NonNeg: true}
+	return &Sym{S: SInt, T: "(wrapU " + named.T + " " + pow2(bits).String() + ")", Lo: lo, Hi: hi}
 }
 
 func wrapBig(c *big.Int, bits int, signed bool) *big.Int {
@@ -1119,13 +1123,19 @@ func (it *Interp) changeType(v Value, from, to types.Type) Value {
 }
 
 func (it *Interp) convert(v Value, from, to types.Type) Value {
-	it.checkPoison(v)
+	if p, ok := v.(PoisonV); ok {
+		return p
+	}
 	fb, tb := basicOf(from), basicOf(to)
 	if fb != nil && tb != nil {
 		switch {
 		case fb.Info()&types.IsInteger != 0 && tb.Info()&types.IsInteger != 0:
 			return it.normInt(v, to)
 		case fb.Info()&types.IsInteger != 0 && tb.Info()&types.IsFloat != 0:
+			if _, ok := v.(*Sym); ok {
+				// floats are not modelled; the value is only usable by no-op consumers (telemetry)
+				return PoisonV{Why: "float conversion of a symbolic integer"}
+			}
 			f, _ := new(big.Float).SetInt(asBig(v)).Float64()
 			return f
 		case fb.Info()&types.IsFloat != 0 && tb.Info()&types.IsInteger != 0:
